@@ -12,13 +12,14 @@ MANIFEST = {
     'technique': 'symbolic linear-form (Laurent polynomial) identity checking over the ast of free_energy.py and Chemical._init_energies; comprehension-shape rules for '
             'mixture models; typestate rule (dirty after a change of a frozen input, clean after reset_free_energies) over the CFGs of the Chemical methods with '
             'interprocedural summaries; writer/reader agreement of constants patched by attribute name; raw-optional rule for _init_data',
-    'text': 'Decides, for every input, the algebraic clauses of C07: with the integral additivity axiom the 3x18 reference-state / derivative / pressure / '
-            'phase-jump identities of the enthalpy and entropy functors hold as equalities of symbolic forms, data tuples bind functor parameters with the right '
-            'arity and position, mixture H/S/Cn are mole-weighted sums over stored entries and the ideal mixing term has coefficient -R; every public Chemical '
-            'method that changes a model or constant frozen into the functors (the arguments reset_free_energies hands to _init_energies) rebuilds the functors on '
-            'every normal path before returning. Constants that a setter patches into existing functors by attribute name (S0, Hfus, Sfus) are bound to the functor '
+    'text': 'Decides, for every input, the algebraic clauses of C07: with the integral additivity axiom the 3x18 reference-state / derivative / pressure / phase-'
+            'jump identities of the enthalpy and entropy functors hold as equalities of symbolic forms, data tuples bind functor parameters with the right arity '
+            'and position, mixture H/S/Cn are mole-weighted sums over stored entries and the ideal mixing term has coefficient -R; every public Chemical method '
+            'that changes a model or constant frozen into the functors (the arguments reset_free_energies hands to _init_energies) rebuilds the functors on every '
+            'normal path before returning. Constants that a setter patches into existing functors by attribute name (S0, Hfus, Sfus) are bound to the functor '
             'parameter of that name wherever _init_energies hands them over; once _init_data has resolved an optional argument into its field nothing is computed '
-            'from the raw argument. Numerical model values are out of scope.',
+            'from the raw argument; a functor call of the wrong arity is reported unless what it stores is overwritten on every path consistent with the enclosing '
+            'tests. Numerical model values are out of scope.',
 }
 CH = 'thermosteam/_chemical.py'
 IMM = 'thermosteam/mixture/ideal_mixture_model.py'
